@@ -301,11 +301,23 @@ class QubitHamiltonian(QubitOperator):
             elif self.up_then_down != other_hamiltonian.up_then_down:
                 raise RuntimeError("Spin ordering must be the same for all QubitHamiltonians.")
 
-        # A plain QubitOperator is accepted as a bare QubitHamiltonian (the parent class only adds its own type)
-        if isinstance(other_hamiltonian, of.QubitOperator) and not isinstance(other_hamiltonian, QubitHamiltonian):
-            other_hamiltonian = qubitop_to_qubitham(other_hamiltonian, None, None)
+        return super(QubitOperator, self).__iadd__(self._as_bare_hamiltonian(other_hamiltonian))
 
-        return super(QubitOperator, self).__iadd__(other_hamiltonian)
+    @staticmethod
+    def _as_bare_hamiltonian(other):
+        """A plain QubitOperator is accepted as a bare QubitHamiltonian (the parent class only combines operands of its own type)."""
+        if isinstance(other, of.QubitOperator) and not isinstance(other, QubitHamiltonian):
+            return qubitop_to_qubitham(other, None, None)
+        return other
+
+    def __isub__(self, other):
+        return super(QubitOperator, self).__isub__(self._as_bare_hamiltonian(other))
+
+    def __imul__(self, other):
+        return super(QubitOperator, self).__imul__(self._as_bare_hamiltonian(other))
+
+    def __mul__(self, other):
+        return super(QubitOperator, self).__mul__(self._as_bare_hamiltonian(other))
 
     def __eq__(self, other_hamiltonian):
 
